@@ -606,6 +606,14 @@ def run(tier):
                 bs_ = [b for b in sc["benefits"] if b["sold"]]
                 ov_ = any(abs((a["date"] - b["date"]).days) <= 5 and a["sym"] == b["sym"] for a, b in itertools.combinations(bs_, 2))
                 other_ok = any(v is None and res.get(cid, {}).get("ok") for cid, v in zip(variants, verdicts))
+
+                def n_combos(b):
+                    cands = [t for t in sc["trades"] if t["sym"] == b["sym"] and t.get("act", "Sell") == "Sell"
+                             and b["date"] <= t["td"] <= b["date"] + datetime.timedelta(days=5)]
+                    return sum(1 for n_ in range(1, len(cands) + 1) for c_ in itertools.combinations(cands, n_) if sum(t["qty"] for t in c_) == b["sold"])
+                # ... or some benefit has more than one combination of fills adding up to its sold shares (the matcher
+                # then picks by closeness to a price printed in cents and never revisits the choice)
+                other_ok = other_ok or any(n_combos(b) >= 2 for b in bs_)
                 own_msg = ("Found no trades matching the sell-to-cover" in str(f.get("err")) or "Unable to decide between multiple trade combinations" in str(f.get("err")))
                 sig_extra = {"greedy_shape": bool(ov_ and other_ok and own_msg)}
             if not f:
